@@ -5,12 +5,14 @@ keys/len/iter/items, load-once, access purity, no silent None from __getitem__, 
 feature/label split.  Not decided: index arithmetic of stacked KeepDense/DropOne/HeadDense.
 """
 import ast
+import copy
 
 from ..cfg import CFG
 from ..model import walk_shallow, call_name, is_self_attr, dotted_name, parent, ancestors, enclosing_function
 from ..util import canon
 from ..util import (has_call, find_calls, assigned_value, const_str, unparse, kw, arg_or_kw, enclosing_stmt,
                     guards_of, call_tail, control_ancestors)
+from ..util import clone
 from .. import mutate as M
 
 TECHNIQUE = 'static analysis: interface completeness over the class hierarchy, key-set agreement (len/iter == keys expression), load-once typestate, purity of accessors, sibling decode-guard agreement, producer/consumer marker agreement, statelessness of row filters'
@@ -49,6 +51,8 @@ def run(ctx):
     r15_getitem_domain(ctx, sparse)
     r16_position_changing_views(ctx, dense)
     r17_categorical_expansion(ctx)
+    r18_equality_by_contents(ctx)
+    r19_len_iter_agreement(ctx)
 
 
 def r1_complete(ctx, dense, sparse):
@@ -149,6 +153,27 @@ def r4_purity(ctx, classes):
         for mname, fn in c.methods.items():
             if mname in ("__init__", "__setitem__", "copy", "__setstate__"):
                 continue
+            # a local bound to exactly `self.<attr>` is the same object: `keys = self._nsp; keys |= ...` grows the set every view of the table shares
+            alias = {}
+            for x in walk_shallow(fn):
+                if isinstance(x, ast.Assign) and len(x.targets) == 1 and isinstance(x.targets[0], ast.Name):
+                    if is_self_attr(x.value):
+                        alias[x.targets[0].id] = x.value
+                    else:
+                        alias.pop(x.targets[0].id, None)
+                    continue
+                if isinstance(x, ast.AugAssign) and isinstance(x.target, ast.Name) and x.target.id in alias:
+                    n += 1
+                    ctx.ob("C13.R4", c.rel, f"{c.qual}.{mname}", x, f"no access mutates the view's own state (`{x.target.id}` is {unparse(alias[x.target.id])} itself, the operator works in place)", False)
+                if isinstance(x, ast.Call) and isinstance(x.func, ast.Attribute) and isinstance(x.func.value, ast.Name) and x.func.value.id in alias \
+                        and x.func.attr in ("append", "pop", "update", "clear", "extend", "remove", "insert", "setdefault", "add", "discard", "sort", "popitem", "reverse"):
+                    n += 1
+                    ctx.ob("C13.R4", c.rel, f"{c.qual}.{mname}", x, f"no access mutates the view's own state (`{x.func.value.id}` is {unparse(alias[x.func.value.id])} itself)", False)
+                if isinstance(x, (ast.Assign, ast.Delete)):
+                    for t in x.targets:
+                        if isinstance(t, ast.Subscript) and isinstance(t.value, ast.Name) and t.value.id in alias:
+                            n += 1
+                            ctx.ob("C13.R4", c.rel, f"{c.qual}.{mname}", x, f"no access mutates the view's own state (`{t.value.id}` is {unparse(alias[t.value.id])} itself)", False)
             for x in walk_shallow(fn):
                 targets = []
                 if isinstance(x, ast.Assign):
@@ -563,6 +588,153 @@ def r11_equality(ctx):
                stmt=f"{cname}.__eq__ excludes str and mappings")
 
 
+def r18_equality_by_contents(ctx, rule="C13.R18"):
+    """Two views of one class over the same wrapped object can show different values (KeepDense with different kept columns, DropOne with different label positions,
+    EncodeDense with different encoders; SparseDense keeps nothing in _row at all): equality must be answered from what the view shows."""
+    ctx.rule(rule, "equality of row views is decided by their visible contents: in Dense_.__eq__ / Sparse_.__eq__ (and any __eq__ a row class of pipes/rows.py defines) every returned "
+                   "value that can be true reads the contents of `self` (iterates it, takes its len / items) -- `return True` is reachable only under `o is self`")
+    sites = [(PRIM, "Dense_"), (PRIM, "Sparse_")] + [(ROWS, c.name) for c in ast.walk(ctx.model.modules[ROWS].tree) if isinstance(c, ast.ClassDef)]
+    n = 0
+    for rel, cname in sites:
+        eq = ctx.model.cls(rel, cname).methods.get("__eq__")
+        if eq is None:
+            continue
+        n += 1
+        SELF, O = eq.args.args[0].arg, eq.args.args[1].arg
+        for r in [x for x in ast.walk(eq) if isinstance(x, ast.Return) and x.value is not None]:
+            v = r.value
+            if isinstance(v, ast.Constant) and not v.value:
+                continue
+            reads = any((isinstance(x, ast.Name) and x.id == SELF and not isinstance(parent(x), ast.Attribute))
+                        or (isinstance(x, ast.Call) and isinstance(x.func, ast.Attribute) and isinstance(x.func.value, ast.Name) and x.func.value.id == SELF and x.func.attr in ("items", "keys", "values", "copy"))
+                        for x in ast.walk(v))
+            same = any(pol and isinstance(t, ast.Compare) and len(t.ops) == 1 and isinstance(t.ops[0], ast.Is) and {unparse(t.left), unparse(t.comparators[0])} == {SELF, O}
+                       for t, pol in guards_of(r, eq))
+            ctx.ob(rule, rel, f"{cname}.__eq__", r, "a result that can be true is computed from the contents of the view (or the other object IS this one)", reads or same, detail={"returns": unparse(v)[:100]})
+    ctx.floor(rule, "__eq__ methods of row classes", n, 2)
+
+
+def r19_len_iter_agreement(ctx, rule="C13.R19"):
+    """len(view) is the number of values the view iterates: consumers size their work by len() and then walk the row (InteractionsEncoder: `starts=[1]*len(values)`
+    zipped with the values -- a len that is too small silently drops the trailing features)."""
+    ctx.rule(rule, "for every row view of pipes/rows.py, __len__ and __iter__ count the same thing: (a) len(E) with __iter__ iterating E (through iter / map / set / comprehension / zip, "
+                   "self.keys() inlined), (b) len(E) - 1 with iteration of E minus one position, (c) a stored length that __iter__ itself is bounded by, or -- KeepDense -- that every "
+                   "construction site computes as the number of true selectors handed over with it")
+    mod = ctx.model.modules[ROWS]
+    n = 0
+
+    def inline_locals(fn, e):
+        env = {}
+        for st in walk_shallow(fn):
+            if isinstance(st, ast.Assign) and len(st.targets) == 1 and isinstance(st.targets[0], ast.Name):
+                env.setdefault(st.targets[0].id, []).append(st.value)
+
+        class T(ast.NodeTransformer):
+            def visit_Name(self, nd):
+                v = env.get(nd.id)
+                return self.visit(clone(v[0])) if v and len(v) == 1 else nd
+        return T().visit(clone(e))
+
+    def peel(e, cls, depth=0):
+        """the collections whose members are counted / iterated by e"""
+        if isinstance(e, ast.Call):
+            f = call_name(e) or ""
+            if isinstance(e.func, ast.Attribute) and isinstance(e.func.value, ast.Name) and e.func.value.id == "self" and e.func.attr in cls and not e.args and depth < 2 and e.func.attr != "_load_or_get":
+                m = cls[e.func.attr]
+                outs = [r.value for r in walk_shallow(m) if isinstance(r, ast.Return) and r.value is not None] + \
+                       [y.value for y in ast.walk(m) if isinstance(y, ast.YieldFrom)] + [l_.iter for l_ in ast.walk(m) if isinstance(l_, ast.For)]
+                return [s_ for o in outs for s_ in peel(inline_locals(m, o), cls, depth + 1)]
+            if f in ("iter", "set", "list", "tuple", "sorted", "frozenset", "reversed") and e.args:
+                return peel(e.args[0], cls, depth)
+            if f == "map" and len(e.args) >= 2:
+                return [s_ for a in e.args[1:] for s_ in peel(a, cls, depth)]
+            if f == "zip":
+                return [s_ for a in e.args for s_ in peel(a, cls, depth)]
+            if isinstance(e.func, ast.Attribute) and e.func.attr == "keys" and not e.args:
+                return peel(e.func.value, cls, depth)
+        if isinstance(e, (ast.GeneratorExp, ast.ListComp, ast.SetComp)):
+            return [s_ for g in e.generators for s_ in peel(g.iter, cls, depth)]
+        return [unparse(e)]
+
+    for c in [c for c in mod.tree.body if isinstance(c, ast.ClassDef)]:
+        m = {f.name: f for f in c.body if isinstance(f, ast.FunctionDef)}
+        if "__len__" not in m or "__iter__" not in m:
+            continue
+        n += 1
+        ln, it = m["__len__"], m["__iter__"]
+        lret = [r.value for r in walk_shallow(ln) if isinstance(r, ast.Return) and r.value is not None]
+        outs = [r.value for r in walk_shallow(it) if isinstance(r, ast.Return) and r.value is not None] + [y.value for y in ast.walk(it) if isinstance(y, ast.YieldFrom)]
+        it_src = {s_ for o in outs for s_ in peel(inline_locals(it, o), m)}
+        it_txt = unparse(it)
+        ok, how = False, ""
+        if len(lret) == 1:
+            L = inline_locals(ln, lret[0])
+            if isinstance(L, ast.Call) and call_name(L) == "len" and len(L.args) == 1:
+                src = set(peel(L.args[0], m))
+                ok, how = bool(src & it_src), f"len of {sorted(src)} / iterates {sorted(it_src)}"
+            elif isinstance(L, ast.BinOp) and isinstance(L.op, ast.Sub) and isinstance(L.right, ast.Constant) and L.right.value == 1 and isinstance(L.left, ast.Call) and call_name(L.left) == "len":
+                E = unparse(L.left.args[0])
+                ch = [x for o in outs for x in ast.walk(inline_locals(it, o)) if isinstance(x, ast.Call) and call_name(x) == "chain" and len(x.args) == 2]
+                ok = any(all(isinstance(a, ast.Call) and call_name(a) == "islice" and unparse(a.args[0]) == E for a in x.args) and len(x.args[0].args) == 2 and len(x.args[1].args) == 3
+                         and unparse(x.args[1].args[1]) in (f"{unparse(x.args[0].args[1])} + 1", f"1 + {unparse(x.args[0].args[1])}") and unparse(x.args[1].args[2]) == "None" for x in ch)
+                how = f"len({E}) - 1 / iteration of {E} without one position"
+            elif is_self_attr(L):
+                comp = [x for o in outs for x in ast.walk(inline_locals(it, o)) if isinstance(x, ast.Call) and call_name(x) == "compress" and len(x.args) == 2]
+                if comp:
+                    ok, how = _stored_length_is_selector_count(ctx, c.name, m, L.attr, comp[0]), "stored length = number of true selectors at every construction site"
+                else:
+                    ok, how = unparse(L) in it_txt, f"stored length {unparse(L)} bounds the iteration"
+        ctx.ob(rule, ROWS, f"{c.name}.__len__", ln, "len() of the view is the number of values it iterates", ok, detail={"how": how}, stmt=f"{c.name}: len ~ iter")
+    ctx.floor(rule, "row classes with __len__ and __iter__", n, 10)
+
+
+def _stored_length_is_selector_count(ctx, cname, methods, attr, comp):
+    """KeepDense(row, mapping, selects, len, headers): at every construction site `len` is len(list(compress(range(len(first)), selects))) of the selects passed along"""
+    init = methods.get("__init__")
+    if init is None:
+        return False
+    params = [a.arg for a in init.args.args]
+    binds = {unparse(t): unparse(st.value) for st in walk_shallow(init) if isinstance(st, ast.Assign) for t in st.targets}
+    p_len, p_sel = binds.get(f"self.{attr}"), binds.get(unparse(comp.args[1]))
+    if p_len not in params or p_sel not in params:
+        return False
+    i_len, i_sel = params.index(p_len) - 1, params.index(p_sel) - 1
+    mod = ctx.model.modules[ROWS]
+    sites = [k for k in ast.walk(mod.tree) if isinstance(k, ast.Call) and call_name(k) == cname]
+    if not sites:
+        return False
+    for k in sites:
+        fn = enclosing_function(k)
+        if len(k.args) <= max(i_len, i_sel) or not all(isinstance(k.args[i], ast.Name) for i in (i_len, i_sel)):
+            return False
+        a_len, a_sel = k.args[i_len].id, k.args[i_sel].id
+        # the two names are unpacked from one call of a helper that returns them side by side
+        unp = [st for st in ast.walk(fn) if isinstance(st, ast.Assign) and isinstance(st.targets[0], ast.Tuple) and {a_len, a_sel} <= {unparse(e) for e in st.targets[0].elts} and isinstance(st.value, ast.Call)]
+        if len(unp) != 1:
+            return False
+        names = [unparse(e) for e in unp[0].targets[0].elts]
+        helper = (call_name(unp[0].value) or "").split(".")[-1]
+        hf = next((f for (rel, q), f in ctx.model.functions.items() if rel == ROWS and q.split(".")[-1] == helper), None)
+        if hf is None:
+            return False
+        rets = [r.value for r in ast.walk(hf) if isinstance(r, ast.Return) and isinstance(r.value, ast.Tuple) and len(r.value.elts) == len(names)]
+        if not rets:
+            return False
+        for r in rets:
+            LN, SL = unparse(r.elts[names.index(a_len)]), unparse(r.elts[names.index(a_sel)])
+            ldefs = [st.value for st in ast.walk(hf) if isinstance(st, ast.Assign) and any(unparse(t) == LN for t in st.targets)]
+            if not ldefs or not all(isinstance(v, ast.Call) and call_name(v) == "len" and len(v.args) == 1 for v in ldefs):
+                return False
+            for v in ldefs:
+                X = v.args[0]
+                xdefs = [X] if not isinstance(X, ast.Name) else [st.value for st in ast.walk(hf) if isinstance(st, ast.Assign) and any(unparse(t) == X.id for t in st.targets)]
+                if not xdefs or not all(canon(unparse(x)) in (canon(f"list(compress(range(len(first)), {SL}))"), canon(f"list(compress(count(), {SL}))")) or
+                                        (isinstance(x, ast.Call) and call_name(x) in ("list", "tuple") and x.args and isinstance(x.args[0], ast.Call) and call_name(x.args[0]) == "compress"
+                                         and unparse(x.args[0].args[1]) == SL and unparse(x.args[0].args[0]).startswith("range(len(")) for x in xdefs):
+                    return False
+    return True
+
+
 def _empty_marker(tree):
     from ..mutate import find_def
     f = find_def(tree, "DropRows.make_drop_row_args")
@@ -731,6 +903,10 @@ def _unguarded_fast_iter(tree):
 
 
 CONTROLS = [
+    ("HeadDense measures its header map", ROWS, M.replace_expr("HeadDense.__len__", "len(self._row)", "len(self.headers)"), "C13.R19"),
+    ("kept length computed from the size of the drop list", ROWS, M.replace_expr("DropRows.make_drop_row_args", "len(indexes)", "len(first) - len(drop_cols)"), "C13.R19"),
+    ("EncodeSparse.keys grows the shared not-sparse set through an alias", ROWS, M.replace_stmt("EncodeSparse.keys", lambda st: isinstance(st, ast.Return), "keys = self._nsp\nkeys |= self._row.keys()\nreturn keys"), "C13.R4"),
+    ("views of one class over the same row compare equal unwalked", PRIM, M.insert_before("Dense_.__eq__", lambda st: isinstance(st, ast.Try), "if o.__class__ is self.__class__ and o._row is self._row: return True"), "C13.R18"),
     ("KeepDense sets only non-empty header maps", ROWS, M.replace_expr("KeepDense.__init__", "headers is not None", "headers"), "C13.R9"),
     ("EncodeCatRows scans plain containers only", ROWS, M.replace_expr("EncodeCatRows._encode_collection", "isinstance(o, (list, tuple, Dense))", "isinstance(o, (list, tuple))"), "C13.R17"),
     ("a name's position falls through into the view's index shift", ROWS, M.delete_stmt("DropOne.__getitem__", lambda st: isinstance(st, ast.Return), nth=0), "C13.R16"),
